@@ -62,6 +62,8 @@ pub struct GenCfg {
     /// Several FEE IDs may travel on one link number (legal when validation is per FEE ID, i.e. in
     /// stave mode only).
     pub share_link_ids: bool,
+    /// Prefer staves of an already used layer whose number differs from a used one in a single bit.
+    pub alias_staves: bool,
     /// C13: readout frames to emit, in order, instead of generated conforming frames (first link
     /// only). When the plan is exhausted conforming frames follow.
     pub frame_plan: Vec<FrameSpec>,
@@ -98,6 +100,7 @@ impl GenCfg {
             max_hits: rng.range(0, 6) as usize,
             free_status_bits: rng.chance(2, 3),
             share_link_ids: false,
+            alias_staves: false,
             frame_plan: Vec::new(),
         }
     }
@@ -661,7 +664,20 @@ pub fn gen_conforming(cfg: &GenCfg, rng: &mut Rng) -> Stream {
                 }
                 None => rng.below(7) as u8,
             };
-            let f = fee_id(layer, rng.below(48) as u8, rng.below(4) as u8);
+            let mut f = fee_id(layer, rng.below(48) as u8, rng.below(4) as u8);
+            if cfg.alias_staves && !used_fee.is_empty() && rng.chance(2, 3) {
+                let u = *rng.pick(&used_fee);
+                let (ul, us) = ((u >> 12) as u8 & 0x7, (u & 0x3F) as u8);
+                let allowed = match &cfg.barrels {
+                    Some(bs) => bs.contains(&Barrel::of_layer(ul)),
+                    None => true,
+                };
+                let bit = if rng.chance(1, 2) { 5 } else { rng.below(5) };
+                let alias = us ^ (1 << bit);
+                if allowed && alias < 48 {
+                    f = fee_id(ul, alias, rng.below(4) as u8);
+                }
+            }
             // distinct (layer, stave) so that a stave filter selects one link
             if !used_fee.iter().any(|u| crate::rdh::layer_stave_match(*u, f)) {
                 break (f, Barrel::of_layer(layer));
